@@ -28,8 +28,9 @@ REL = {operator.ge: GE, operator.gt: GT, operator.le: LE, operator.lt: LT, opera
        operator.ne: NE}
 
 # atom kinds
-F1, F2, TR, AFTER, BEFORE, MOMENT, DONE, RES = range(8)
-ATOM_NAMES = ['flag1', 'flag2', 'tracked?x', 'time>=t', 'time<t', 'time==t', 'task.done', 'res>=x']
+F1, F2, TR, AFTER, BEFORE, MOMENT, DONE, RES, TR2 = range(9)
+ATOM_NAMES = ['flag1', 'flag2', 'tracked?x', 'time>=t', 'time<t', 'time==t', 'task.done', 'res>=x',
+              'tracked?tracked2']
 
 
 class World:
@@ -40,6 +41,7 @@ class World:
         self.f1, self.f2 = Flag(), Flag()
         self.tv = E.int('tv0', -5, 5)
         self.tr = Tracked(self.tv)
+        self.tr2 = None         # second tracked value: only built for the atom tracked?tracked2
         self.res = Resources(0, x=E.int('r0', 0, 5))
         self.task = None
         self.params = {}
@@ -55,6 +57,12 @@ class World:
             op = OPS[E.pick('op%s' % pos, len(OPS))]
             x = E.int('x%s' % pos, -5, 5)
             return op(self.tr, x), lambda tnow: REL[op](self.tr._value, x)
+        if kind == TR2:
+            # both operands are tracked values: a change of either one must reach the waiters
+            op = OPS[E.pick('op%s' % pos, len(OPS))]
+            if self.tr2 is None:
+                self.tr2 = Tracked(E.int('tv2', -5, 5))
+            return op(self.tr, self.tr2), lambda tnow: REL[op](self.tr._value, self.tr2._value)
         if kind == RES:
             x = E.int('x%s' % pos, 0, 5)
             return self.res >= dict(x=x), lambda tnow: GE(self.res.levels.x, x)
@@ -119,12 +127,14 @@ def fam_cond(E, shapes, xk, yk, zk, nchanges=3, nwaiters=1, real=False, fault_ki
     dtask = E.int('dtask', 0, 20) if uses_task else None
     starts = [E.int('w%d' % i, 0, 20) for i in range(nwaiters)]
     # the driver only performs changes that can affect an atom of the expression
-    relevant = [w for w, kind in ((0, F1), (1, F2), (2, TR), (3, RES)) if kind in (kx, ky, kz)]
+    relevant = [w for w, kind in ((0, F1), (1, F2), (2, TR), (3, RES), (2, TR2), (4, TR2))
+                if kind in (kx, ky, kz)]
+    relevant = sorted(set(relevant))
     changes = []
     for k in range(nchanges if relevant else 0):
         what = relevant[E.pick('chg%d' % k, len(relevant))]
         gap = E.int('gap%d' % k, 0, 10)
-        val = E.int('val%d' % k, -5 if what == 2 else 0, 5) if what >= 2 else None
+        val = E.int('val%d' % k, -5 if what in (2, 4) else 0, 5) if what >= 2 else None
         changes.append((what, gap, val))
     log = Log()
     holder = {}
@@ -149,6 +159,8 @@ def fam_cond(E, shapes, xk, yk, zk, nchanges=3, nwaiters=1, real=False, fault_ki
                 await W.f2.set(not W.f2._value)
             elif what == 2:
                 await W.tr.set(val)
+            elif what == 4:
+                await W.tr2.set(val)
             else:
                 await W.res.set(x=val)
 
@@ -297,6 +309,12 @@ FAMILIES = [
            reach=['resumed', 'never-true'],
            bounds='the changes are made by two independent activities (a change can be reverted '
                   'by another activity in the time step in which it woke the waiter)'),
+    Family('tracked_pair', fam_cond,
+           quick=dict(shapes=['X', '~X', 'X&Y'], xk=[TR2], yk=[F2], zk=[F2], nchanges=2),
+           thorough=dict(shapes=['X', '~X', 'X&Y', 'X|Y', '~(X|Y)'], xk=[TR2], yk=[F2, AFTER],
+                         zk=[F2], nchanges=3),
+           reach=['resumed', 'never-true'],
+           bounds='comparison of two tracked values (six operators), either of which is changed'),
     Family('float_time', fam_float_time, quick=dict(), thorough=dict(), reach=['resumed'],
            bounds='time conditions on IEEE double dates (z3 floating point)'),
     Family('two_waiters', fam_cond,
